@@ -11,13 +11,23 @@ Open Scope Z_scope.
 Inductive src :=
 | SW (i : nat)              (* pool wire i *)
 | SC (w : nat) (v : Z)      (* Const(v, bitwidth=w) *)
-| SS (i : nat) (lo hi : nat)(* pool wire i sliced [lo:hi] *).
+| SS (i : nat) (lo hi : nat)(* pool wire i sliced [lo:hi] *)
+| SP (sch : schema) (base : src) (path : list nat)
+                            (* as_wires(component at `path` of the wire_struct / wire_matrix instance
+                               built (slicing mode) from `base`); path [] = the instance itself *)
+| SMsb (base : src)         (* base[-1] *).
 
-Definition eval (env : list bits) (s : src) : bits :=
+Fixpoint eval (env : list bits) (s : src) : bits :=
   match s with
   | SW i => nth i env []
   | SC w v => of_Z w v
   | SS i lo hi => sl (nth i env []) lo hi
+  | SP sch base path =>
+    match cpath (slice_comp sch (eval env base)) path with
+    | Some t => croot t
+    | None => []
+    end
+  | SMsb base => [last (eval env base) false]
   end.
 
 Definition eval1 (env : list bits) (s : src) : bool := nth 0 (eval env s) false.
@@ -101,6 +111,10 @@ Definition t_demux ws sel :=
 Definition t_barrel ws x bit_in dir sd :=
   run_tab ws (fun env =>
     Some [barrel_shifter (eval env x) (eval env bit_in) (eval1 env dir) (eval env sd)]).
+
+Definition t_sll_i ws x k := run_tab ws (fun env => one (sll_const (eval env x) k)).
+Definition t_srl_i ws x k := run_tab ws (fun env => one (srl_const (eval env x) k)).
+Definition t_sra_i ws x k := run_tab ws (fun env => one (sra_const (eval env x) k)).
 
 Definition t_bfu ws w s e nv tr :=
   run_tab ws (fun env => one (bitfield_update (eval env w) s e (eval env nv) tr)).
